@@ -18,6 +18,8 @@ RULE = (
     "coordinates stored at native index n; centre n == stored centre / centroid; spatial-index hits "
     "== brute force.  Non-trivial: datasets with holes, non-square or skewed grids, multi-kind."
 )
+LEVEL_TEXT = ('every cell of every grid kind of every dataset in the family list (all conventions, holes, skew, >10 cells): flattened value == value selected through the native index == builder label; polygon / centre / spatial-index position n belong to the cell at native index n')
+LEVEL_NOTE = ('shapely/GEOS as geometry kernel; dyadic coordinates; CF2D derived bounds next to holes not judged')
 ASSUMPTIONS = [
     "labels are exact in float32; coordinates are dyadic rationals so polygon equality is exact",
     "CF2D cells whose polygon is derived from neighbouring centres next to a hole are not judged (DESIGN 6)",
